@@ -51,6 +51,8 @@ thread_local! {
     pub static TAP: std::cell::RefCell<Vec<String>> = std::cell::RefCell::new(Vec::new());
     /// when set, calls are not recorded and `init` succeeds with no options (pre-INIT of a case)
     pub static QUIET: std::cell::Cell<bool> = std::cell::Cell::new(false);
+    /// with QUIET: `init` refuses (a file system that does not accept a second INIT, like the Vfs)
+    pub static REFUSE_INIT: std::cell::Cell<bool> = std::cell::Cell::new(false);
 }
 
 pub struct ScriptFs {
@@ -313,6 +315,9 @@ impl FileSystem for ScriptFs {
 
     fn init(&self, capable: FsOptions) -> io::Result<FsOptions> {
         if QUIET.with(|q| q.get()) {
+            if REFUSE_INIT.with(|q| q.get()) {
+                return Err(io::Error::from_raw_os_error(libc::EINVAL));
+            }
             return Ok(FsOptions::empty());
         }
         self.record("init", &Context::default(), &[capable.bits().to_string()]);
